@@ -967,3 +967,79 @@ func TestVerifC10Wedged(t *testing.T) {
 	wg.Wait()
 	en.Done(true)
 }
+
+// TestVerifC10Resend: a test name that was answered is handed to the same client process again (the runner refuses
+// a name only while it is still pending): the second request gets its own, second answer - exactly one callback with
+// the response, the client stays in good standing, later requests go on normally.
+func TestVerifC10Resend(t *testing.T) {
+	en := verifkit.NewEnum(t, "C10Resend")
+	type row struct {
+		Rounds int `json:"rounds"` // how many times the same name is sent, each after the previous answer arrived
+	}
+	for _, rounds := range []int{2, 3} {
+		r := row{rounds}
+		client := func(ctx context.Context, _ []string, in io.ReadCloser, out, _ io.WriteCloser) error {
+			for {
+				req := &conformancev1.ClientCompatRequest{}
+				if err := internal.ReadDelimitedMessage(in, req, "runner", 20*time.Second, 1<<20); err != nil {
+					return nil
+				}
+				var idx int
+				_, _ = fmt.Sscanf(req.TestName, "verif/c10/case-%d", &idx)
+				if _, err := out.Write(vfAnswerBytes(vfAnswer{Kind: "valid", Name: idx})); err != nil {
+					return nil
+				}
+			}
+		}
+		runner, err := runClient(context.Background(), runInProcess([]string{"verif-client"}, client))
+		if err != nil {
+			t.Fatal(err)
+		}
+		var viol error
+		send := func(name int, what string) {
+			if viol != nil {
+				return
+			}
+			got := make(chan error, 4)
+			if err := runner.sendRequest(&conformancev1.ClientCompatRequest{TestName: vfC10Name(name)}, func(_ string, resp *conformancev1.ClientCompatResponse, err error) {
+				if err == nil && (resp == nil || resp.TestName != vfC10Name(name)) {
+					err = fmt.Errorf("response for %q", resp.GetTestName())
+				}
+				got <- err
+			}); err != nil {
+				viol = verifkit.Violf("resend-refused", "%s: sendRequest returned %v", what, err)
+				return
+			}
+			select {
+			case err := <-got:
+				if err != nil {
+					viol = verifkit.Violf("resend-answer-lost", "%s: the client answered it, the callback got: %v", what, err)
+				}
+			case <-time.After(20 * time.Second):
+				viol = verifkit.Violf("resend-no-callback", "%s: no callback within 20s", what)
+			}
+			select {
+			case err := <-got:
+				viol = verifkit.Violf("resend-callback-twice", "%s: a second callback fired (%v)", what, err)
+			case <-time.After(20 * time.Millisecond):
+			}
+		}
+		for i := 0; i < rounds; i++ {
+			send(0, fmt.Sprintf("request %d for the same test name", i+1))
+		}
+		send(1, "a request for another test name afterwards")
+		if viol == nil && !runner.isRunning() {
+			viol = verifkit.Violf("resend-client-dropped", "the client answered every request but the runner reports it as no longer running")
+		}
+		runner.closeSend()
+		if err := runner.waitForResponses(); err != nil && viol == nil {
+			viol = verifkit.Violf("resend-wait-error", "waitForResponses: %v", err)
+		}
+		runner.stop()
+		en.Rec.Observe(r, []string{fmt.Sprintf("rounds:%d", rounds)}, true)
+		if viol != nil && en.Fail(r, viol) {
+			break
+		}
+	}
+	en.Done(true)
+}
